@@ -17,6 +17,7 @@ def install(I):
     S["etsi.crc.crc:BitCrcCalculator.calculate_checksum"] = crc_calculate
     S["etsi.crc.crc:BitCrcCalculator.verify_checksum"] = lambda *a: NotImplemented
     S["etsi.crc.crc:bits_create_lookup_table"] = crc_table
+    S["etsi.fec.reed_solomon_12_9_4:ReedSolomon1294.log_multiply"] = rs_multiply
     for n in ("log_debug", "log_info", "log_warning", "log_error", "log_exception", "get_logger"):
         S[f"utils.logging_trait:LoggingTrait.{n}"] = lambda *a: None
     S["etsi.fec.hamming_common:HammingCommon.generate"] = code_generate
@@ -47,6 +48,32 @@ def crc_table(I, fi, args, kw, bound_cls):
             return t
         cache[key] = [tuple(b.c for b in e.items) for e in t]
     return [ABits([cbit(x) for x in row], "ba") for row in cache[key]]
+
+
+def rs_multiply(I, fi, args, kw, bound_cls):
+    """GF(2^8) product with one constant operand is GF(2)-linear in the other (justified by C11 field/multiply)"""
+    from . import algebra as alg
+    from .bitabs import AInt, Abort
+    a, b = args[0], args[1]
+    ca = a if isinstance(a, int) else None
+    cb = b if isinstance(b, int) else None
+    if ca is not None and cb is not None:
+        return alg.gf256_mul(ca, cb, 0x11D)
+    if ca is None and cb is None:
+        return NotImplemented
+    c, x = (ca, b) if ca is not None else (cb, a)
+    if not isinstance(x, AInt) or x.ext is not None or len(x.bits) > 8:
+        return NotImplemented
+    bits = list(x.bits) + [ZERO] * (8 - len(x.bits))
+    cols = [alg.gf256_mul(c, 1 << i, 0x11D) for i in range(8)]
+    out = []
+    for j in range(8):
+        acc = ZERO
+        for i in range(8):
+            if (cols[i] >> j) & 1:
+                acc = acc ^ bits[i]
+        out.append(acc)
+    return AInt(out)
 
 
 def _bits_of(fr_interp, v):
